@@ -10,7 +10,7 @@ import re, time, os, json
 from .. import core, build, lean, unit
 
 PROP = "C16"
-MODULES = ["NngModel.Props.C16"]
+MODULES = ["NngModel.Props.C16", "NngModel.Props.C16Http"]
 ALLOC_LIMIT = 1 << 22
 
 # ------------------------------------------------------------------------------------------ WS
@@ -525,6 +525,15 @@ def run(tier, seed, replay=None):
                                                         "ops": ops, "impl": r1["impl"].lines, "spec": r1["spec"].lines,
                                                         "first": {k: str(mm[k])[:400] for k in ("impl", "spec", "op_index")}})
             found_input = True
+    # HTTP request/response layer (vlib/props/c16_http.py: receive buffer, line parsers, writer; segmentation judge)
+    from . import c16_http
+    hc, hv = c16_http.run_http_part(tier, seed, st, replay)
+    for tag, payload, no_input in hv:
+        v.violation(tag, payload, no_input=no_input)
+        found_input = found_input or not no_input
+    tot["cases"] += hc["cases"]; tot["ops"] += hc["ops"]; tot["spec"] += hc["spec"] + hc["seg"]
+    tot["model"] += hc["model"]; tot["crash"] += hc["crash"]
+    hist["http"] = hc["op_hist"]; rvh["http"] = hc["rv_hist"]; samples += hc["samples"]; distinct += hc["distinct"]
     if not found_input:
         for s in subs:
             if s.res and s.res.model_mismatch:
@@ -555,6 +564,8 @@ def run(tier, seed, replay=None):
         "spec_mismatches": tot["spec"], "model_mismatches": tot["model"], "crashes": tot["crash"],
         "extract_changed": st.extract_changed,
     }
+    cov["http_part"] = {k: hc[k] for k in ("streams", "cases", "ops", "bytes", "seg", "spec", "model", "crash", "wall_s")}
+    cov["http_rule"] = c16_http.RULE
     core.write_evidence(PROP, tier, seed, "proof", cov,
                         ["Model/Ws.lean, Model/HttpChunk.lean, Model/Base64.lean mirror websocket.c, http_chunk.c, base64.c; tie = differential "
                          "execution on the cases above",
